@@ -1,8 +1,9 @@
 """
 C07 - spline evaluation equals the mathematical B-spline on every entry point.
 
-Proof: Props/C07.v (SplineModel.v, SplineTheory.v, CoxDeBoorGen.v, SplineQc.v on the seeds BasisCoxDeBoor.v,
-FindSpan.v, CubicUniform.v).
+Proof: Props/C07.v (SplineModel.v, SplineTheory.v, SplinePaths.v, SplineDeriv.v, SplinePeriodic.v, SplineQc.v,
+SplineQcTheory.v, CoxDeBoorGen.v, CoxDeBoorDeriv.v, CoxDeBoorPeriodic.v on the seeds BasisCoxDeBoor.v, FindSpan.v,
+CubicUniform.v).
 
 Tie (the gate): every exported function of pygyro/splines/spline_eval_funcs.py and
 cubic_uniform_spline_eval_funcs.py is executed *exactly* (qlift: the real source on
@@ -1456,16 +1457,13 @@ def run():
                'coq_vm_compute_crosschecked': len(keep), 'coq_vm_compute_points': coq_points,
                'exact_cases': len(cases), 'uniform_extensions_checked': len(k4s)},
         uncovered=[
-            'that the derivative formula p*(N_{i,p-1}/(t_{i+p}-t_i) - N_{i+1,p-1}/(t_{i+p+1}-t_{i+1})) (proved to be what '
-            'nu_basis_funs_1st_der returns: c07_ders_formula; for the uniform cubic: c07_cu_ders_eq_general) is d/dx of the '
-            'basis is the classical identity, not proved (exact differential + independent oracles only)',
-            'equality of the uniform-cubic and the general path as functions of x: proved that both return the B-spline series '
-            'of the closed domain on the uniform extension knots (c07_eval_1d_closed, c07_cu_eval_1d_closed, values, 1-D) under '
-            'the floor law of int() (hypothesis sp_trunc_ok, not proved for the Qc instance); derivative and 2-D path equality, '
-            'and uniqueness of the span in the two statements, are tested only',
-            'periodic splines: equal values (degree >= 1) and slopes (degree >= 2) at both ends of the period are tested only',
-            'numpy-level dispatch (Spline1D / Spline2D / BSplines, make_knots) and floating-point rounding are outside the '
-            'Coq model: float sanity link and exact rebuild only'])
+            'the formal derivative (product rule through the Cox-de Boor recursion / D of coefficient lists, characterised '
+            'algebraically by S(x+h) = S(x) + h*S\'(x) + h^2*R: c07_ders_eq_formal_derivative, c07_basis_taylor, c07_eval_taylor, '
+            'c07_cu_ders_eq_D) is not connected to a derivative over the real numbers (no analysis in the development)',
+            'numpy-level code is outside the Coq model: the dispatch of Spline1D / Spline2D / BSplines and make_knots are tied '
+            'by the float sanity link and the exact rebuild only (the theorems take the shape of the knot vector - sorted, '
+            'strictly increasing, periodic with wrapped coefficients - as hypotheses); floating-point rounding is bounded '
+            'a posteriori, not proved'])
 
 
 def replay(path):
